@@ -558,6 +558,60 @@ fn family_c01(ctx: &mut Ctx) {
     }
 }
 
+/// C03 end to end: the same rounds on every engine; TLC requires identical recovery bytes.
+fn family_c03(ctx: &mut Ctx) {
+    let engines = ctx.engines.clone();
+    let mut rng = util::rng(ctx.seed, 3);
+    let mut cfgs: Vec<(&str, usize, usize, usize)> = vec![
+        ("high", 3, 2, 2), ("low", 2, 3, 66), ("high", 5, 3, 130), ("low", 3, 5, 64), ("high", 9, 4, 34), ("low", 4, 9, 192),
+        ("high", 17, 16, 6), ("low", 16, 17, 62), ("high", 70, 13, 2), ("low", 13, 70, 4), ("high", 128, 32, 64), ("low", 32, 128, 64),
+        ("high", 300, 200, 2), ("low", 200, 300, 2), ("high", 1000, 100, 2), ("low", 100, 1000, 2),
+    ];
+    let extra = if ctx.thorough { 80 } else { 8 };
+    for _ in 0..extra {
+        let k = (2f64.powf(rng.gen_range(0.0..10.0)) as usize).clamp(1, 1000);
+        let r = (2f64.powf(rng.gen_range(0.0..10.0)) as usize).clamp(1, 1000);
+        let rate = if rng.gen_bool(0.5) { "high" } else { "low" };
+        if crate::dut::supports_rate(rate, k, r) {
+            cfgs.push((rate, k, r, *[2usize, 6, 66].choose(&mut rng).unwrap()));
+        }
+    }
+    if ctx.thorough {
+        cfgs.push(("high", 61440, 4096, 2));
+        cfgs.push(("low", 4096, 61440, 2));
+    } else {
+        cfgs.push(("high", 8192, 8192, 2));
+    }
+    for (ci, (rate, k, r, sb)) in cfgs.into_iter().enumerate() {
+        let sb = if (k + r) * sb > 40000 { 2 } else { sb };
+        ctx.group = Some(ci as i64);
+        let ded = Some(if rate == "high" { Kind::High } else { Kind::Low });
+        let orig = originals(ctx.seed, ctx.counter, k, sb);
+        let mut lines = Vec::new();
+        let mut rec0 = None;
+        for e in &engines {
+            let (l, rec) = enc_event(ctx, e, ded, k, r, &orig, None, false);
+            lines.push(l as i64);
+            if rec0.is_none() {
+                rec0 = rec;
+            }
+        }
+        let here = ctx.trace.lines as i64 + 1;
+        ctx.trace.line(&Obj::new().str("ev", "alleq").int("g", ci as i64).raw("refs", &arr_json(&lines.iter().map(|l| (l - here).to_string()).collect::<Vec<_>>())).done());
+        ctx.group = None;
+        // decode on every engine from the same shards
+        if let Some(rec) = rec0 {
+            if rec.len() == r {
+                let pats = patterns(&mut rng, k, r, 1);
+                let pat = &pats[if ci % 2 == 0 { 1 } else { pats.len() - 2 }];
+                for e in &engines {
+                    dec_event(ctx, e, ded, k, r, &orig, &rec, pat, &[0, k - 1, k]);
+                }
+            }
+        }
+    }
+}
+
 /// C08: every corner configuration of the envelope really encodes and decodes (maximum loss).
 fn family_c08(ctx: &mut Ctx) {
     let engines = ctx.engines.clone();
@@ -867,6 +921,7 @@ pub fn main(args: &Args) -> i32 {
         "c02" => family_c02(&mut ctx),
         "c01" => family_c01(&mut ctx),
         "c04" => family_c04(&mut ctx),
+        "c03" => family_c03(&mut ctx),
         "c08" => family_c08(&mut ctx),
         "c09" => family_c09(&mut ctx),
         "c11" => family_c11(&mut ctx),
